@@ -20,7 +20,9 @@ Strings travel as decimal code points joined by `.` (`-` is the empty string), a
   `i:<encoded source>@<path>` = the node at `path` *inside* a separately parsed snippet
   (`getAtRoot (parse false [] source) path`: a node taken out of an argument, a group, an
   `\item` of another document); `c:<path>` = a copy of the node at `path` of the document as
-  it is when the op is reached (`node.copy()`; a subtree is a value, so this is that value).
+  it is when the op is reached (`node.copy()`; a subtree is a value, so this is that value);
+  `o:<path>` = that node itself, as navigation gives it (the same value; used for the target of
+  a `rep` among its own replacement pieces: `x.replace_with('[', x, ']')`).
   `d:<encoded source>` = a whole parsed document handed in as one piece (`TexSoup(source)`
   itself).  The implementation nests its root as one element, which prints as its contents;
   the tree type of the model has no such node, so the model splices the elements of the
@@ -124,7 +126,7 @@ def parseMat (doc : List Expr) (w : String) : Option Expr :=
     | none => none
   else if w.startsWith "s:" then (decStr (w.drop 2).toString).map (fun s => Expr.text s (-1))
   else if w.startsWith "i:" then innerOf (w.drop 2).toString
-  else if w.startsWith "c:" then
+  else if w.startsWith "c:" || w.startsWith "o:" then
     match parsePath (w.drop 2).toString with
     | some [] => none
     | some p => getAtRoot doc p
